@@ -2,6 +2,7 @@ package eng
 
 import (
 	"fmt"
+	"regexp"
 	"go/types"
 	"strings"
 
@@ -64,10 +65,17 @@ type Val struct {
 	Tup  []*Val
 	// Prov marks where a ref value came from, for nilderef policy.
 	Fresh bool
+	Src   string // "pkg.Struct.field" when the value was loaded from that field (container invariants)
 }
+
+var reByte = regexp.MustCompile(`\bbyte\b`)
+var reRune = regexp.MustCompile(`\brune\b`)
 
 func typeKey(t types.Type) string {
 	s := types.TypeString(t, func(p *types.Package) string { return PkgShort(p.Path()) })
+	s = reByte.ReplaceAllString(s, "uint8")
+	s = reRune.ReplaceAllString(s, "int32")
+	s = strings.ReplaceAll(s, "interface{}", "any")
 	r := strings.NewReplacer(" ", "_", "*", "P", "[", "L", "]", "R", "{", "_", "}", "_", ";", "_", "(", "_", ")", "_", ",", "_", "/", "_", "\"", "_", ":", "_")
 	return r.Replace(s)
 }
@@ -166,7 +174,7 @@ func (e *Engine) leaves(t types.Type) []Leaf {
 	case *types.Array:
 		var out []Leaf
 		for _, l := range e.leaves(u.Elem()) {
-			out = append(out, Leaf{"[]" + l.Path, "(Array Int " + l.Sort + ")", t})
+			out = append(out, Leaf{"!arr" + l.Path, "(Array Int " + l.Sort + ")", t})
 		}
 		return out
 	case *types.Struct:
